@@ -48,13 +48,14 @@ template<class Sk, class T, int KIND> struct QObj : Obj {
   Bytes ser(unsigned h) { return to_bytes(sk.serialize(h, SD())); }
   Bytes ser_stream() { std::ostringstream os; sk.serialize(os, SD()); std::string s = os.str(); return Bytes(s.begin(), s.end()); }
   long advertised_size() { return (long)sk.get_serialized_size_bytes(SD()); }
-  size_t ncont() { return 4; }
-  std::string cont_name(size_t i) { return i == 0 ? "update(new)" : i == 1 ? "update(small)x3" : i == 2 ? "merge(operand)" : "update x k"; }
+  size_t ncont() { return 5; }
+  std::string cont_name(size_t i) { return i == 0 ? "update(new)" : i == 1 ? "update(small)x3" : i == 2 ? "merge(operand)" : i == 3 ? "update x k" : "update x 400"; }
   void cont(size_t i) {
     if (i == 0) sk.update(Gen<T>::make(next++));
     else if (i == 1) { for (int j = 0; j < 3; ++j) sk.update(Gen<T>::make(-5 - j)); }
     else if (i == 2) { Sk o = make_operand(sk); sk.merge(o); }
-    else { for (int j = 0; j < 40; ++j) sk.update(Gen<T>::make(next++ % 17)); }
+    else if (i == 3) { for (int j = 0; j < 40; ++j) sk.update(Gen<T>::make(next++ % 17)); }
+    else { for (int j = 0; j < 400; ++j) sk.update(Gen<T>::make((next++ * 31) % 211)); }   // long enough for the compaction schedule of a restored sketch to show
   }
   template<int K = KIND> static typename std::enable_if<K != 1, Sk>::type make_operand(const Sk& like) { Sk o(like.get_k(), like.get_comparator(), like.get_allocator()); for (int j = 0; j < 13; ++j) o.update(Gen<T>::make(100 + 3 * j)); return o; }
   template<int K = KIND> static typename std::enable_if<K == 1, Sk>::type make_operand(const Sk& like) { Sk o(like.get_k(), like.is_HRA(), like.get_comparator(), like.get_allocator()); for (int j = 0; j < 13; ++j) o.update(Gen<T>::make(100 + 3 * j)); return o; }
@@ -68,7 +69,8 @@ void quant_states(bool quick, const StateCb& cb, MakeFn mk, const std::vector<in
       if (coin == 1 && pat != 1) continue;
       std::vector<int> ns; for (int n = 0; n <= nmax_small; ++n) ns.push_back(n);
       if (ki == 0) for (size_t i = 0; i < big_ns.size(); ++i) ns.push_back(big_ns[i]);
-      if (quick && ki > 0) { ns.clear(); const int few[] = {0, 1, 2, k, 2 * k, 2 * k + 1, 5 * k + 3}; ns.assign(few, few + 7); }
+      if (!quick && ki > 0) ns.push_back(40 * k + 7);
+      if (quick && ki > 0) { ns.clear(); const int few[] = {0, 1, 2, k, 2 * k, 2 * k + 1, 5 * k + 3, 40 * k + 7}; ns.assign(few, few + 8); }   // 40k: every level compacted several times
       for (size_t ni = 0; ni < ns.size(); ++ni) {
         int n = ns[ni];
         if (pat == 2 && n > 12 && n % 3) continue;
@@ -126,6 +128,7 @@ inline void register_quant_families() {
   register_quant<std::string, 0>("string", std::vector<int>(1, 8), 30, std::vector<int>(1, 70));
   register_quant<mc::Item, 0>("item", std::vector<int>(1, 8), 26, std::vector<int>(1, 50));
   std::vector<int> rk; rk.push_back(4); rk.push_back(-4); rk.push_back(12);   // negative = low-rank accuracy
+  rk.push_back(10); rk.push_back(-30);   // sizes whose section size k/sqrt(2) truncates and rounds to nearest even differently (7 vs 8, 21 vs 22)
   std::vector<int> rbig; rbig.push_back(60); rbig.push_back(130); rbig.push_back(400);
   register_quant<float, 1>("float", rk, 30, rbig);
   register_quant<std::string, 1>("string", std::vector<int>(1, 4), 28, std::vector<int>(1, 90));
